@@ -194,3 +194,78 @@ func VH_c07_getoradd() {
 	}
 	verifrt.Assert("concurrent-requests-yield-one-and-the-same-feature", f1 == f2 && n == 1)
 }
+
+func init() {
+	verifrt.Register("VH_c07_window", VH_c07_window)
+}
+
+// C07 (schedules): a detailed-discovery read handled while the application adds or removes a local entity
+// is answered with the tree before or the tree after the change - never with a list that no moment had.
+func VH_c07_window() {
+	ops := []string{"remove-first-extra-entity", "remove-middle-entity", "remove-last-entity", "add-entity"}
+	oi := verifrt.ShardChoice("op", len(ops))
+	verifrt.Scenario("discovery-read || " + ops[oi])
+	w := vhNewWorld(vhWorldOpts{onlyA: true, noEvents: true})
+	var extra []*EntityLocal
+	for _, a := range [][]uint{{2}, {3}, {4}} {
+		e := NewEntityLocal(w.L, model.EntityTypeTypeEVSE, NewAddressEntityType(a), 0)
+		e.GetOrAddFeature(model.FeatureTypeTypeLoadControl, model.RoleTypeServer)
+		w.L.AddEntity(e)
+		extra = append(extra, e)
+	}
+	fresh := NewEntityLocal(w.L, model.EntityTypeTypeEVSE, NewAddressEntityType([]uint{5}), 0)
+	fresh.GetOrAddFeature(model.FeatureTypeTypeMeasurement, model.RoleTypeServer)
+	nmL, nmA := vhAddr("L", []uint{0}, 0), vhAddr("A", []uint{0}, 0)
+	tree := func() string {
+		s := ""
+		for _, e := range w.L.Entities() {
+			s += fmt.Sprint(e.Address().Entity) + "{"
+			for _, f := range e.Features() {
+				s += fmt.Sprint(*f.Address().Feature) + ","
+			}
+			s += "}"
+		}
+		return s
+	}
+	before := tree()
+	d := model.DatagramType{Header: w.hdr(nmA, nmL, model.CmdClassifierTypeRead, false), Payload: model.PayloadType{Cmd: []model.CmdType{{NodeManagementDetailedDiscoveryData: &model.NodeManagementDetailedDiscoveryDataType{}}}}}
+	m0 := len(w.wA.msgs)
+	verifrt.Go(func() { vhDeliver(w.rA, d) })
+	verifrt.Go(func() {
+		switch oi {
+		case 0, 1, 2:
+			w.L.RemoveEntity(extra[oi])
+		default:
+			w.L.AddEntity(fresh)
+		}
+	})
+	verifrt.PreemptOn()
+	verifrt.WaitIdle()
+	verifrt.PreemptOff()
+	verifrt.RunReadyFIFO()
+	verifrt.Reach("both-done")
+	after := tree()
+	out := vhCount(w.wA, m0)
+	verifrt.Assert("read-is-answered-with-one-reply", out.replies == 1)
+	got := ""
+	for _, dg := range out.dgs {
+		if dg.Header.CmdClassifier == nil || *dg.Header.CmdClassifier != model.CmdClassifierTypeReply || len(dg.Payload.Cmd) == 0 || dg.Payload.Cmd[0].NodeManagementDetailedDiscoveryData == nil {
+			continue
+		}
+		dd := dg.Payload.Cmd[0].NodeManagementDetailedDiscoveryData
+		for _, ei := range dd.EntityInformation {
+			if ei.Description == nil || ei.Description.EntityAddress == nil {
+				continue
+			}
+			got += fmt.Sprint(ei.Description.EntityAddress.Entity) + "{"
+			for _, fi := range dd.FeatureInformation {
+				if fi.Description != nil && fi.Description.FeatureAddress != nil && fmt.Sprint(fi.Description.FeatureAddress.Entity) == fmt.Sprint(ei.Description.EntityAddress.Entity) {
+					got += fmt.Sprint(*fi.Description.FeatureAddress.Feature) + ","
+				}
+			}
+			got += "}"
+		}
+	}
+	verifrt.Assert("reply-lists-the-tree-before-or-after-the-change", got == before || got == after)
+	verifrt.Observe("before", got == before)
+}
